@@ -3662,7 +3662,28 @@ func (c *Compiler) lowerCallIndirect(typeIndex, tableIndex uint32) {
 	c.reloadAfterCall()
 }
 
+// lowerCheckModuleExitCode inserts the call to the trampoline which checks whether the module has been
+// closed, in the same way as done on loop headers.
+func (c *Compiler) lowerCheckModuleExitCode() {
+	builder := c.ssaBuilder
+	checkModuleExitCodePtr := builder.AllocateInstruction().
+		AsLoad(c.execCtxPtrValue,
+			wazevoapi.ExecutionContextOffsetCheckModuleExitCodeTrampolineAddress.U32(),
+			ssa.TypeI64,
+		).Insert(builder).Return()
+
+	args := c.allocateVarLengthValues(1, c.execCtxPtrValue)
+	builder.AllocateInstruction().
+		AsCallIndirect(checkModuleExitCodePtr, &c.checkModuleExitCodeSig, args).
+		Insert(builder)
+}
+
 func (c *Compiler) lowerTailCallReturnCall(fnIndex uint32) {
+	// A cycle of tail calls never passes a loop header, so the exit code must also be checked here,
+	// otherwise such a cycle cannot be interrupted.
+	if c.ensureTermination {
+		c.lowerCheckModuleExitCode()
+	}
 	isIndirect, sig, args, funcRefOrPtrValue := c.prepareCall(fnIndex)
 	builder := c.ssaBuilder
 	state := c.state()
@@ -3695,6 +3716,10 @@ func (c *Compiler) lowerTailCallReturnCall(fnIndex uint32) {
 func (c *Compiler) lowerTailCallReturnCallIndirect(typeIndex, tableIndex uint32) {
 	builder := c.ssaBuilder
 	state := c.state()
+	// See the comment in lowerTailCallReturnCall.
+	if c.ensureTermination {
+		c.lowerCheckModuleExitCode()
+	}
 	executablePtr, typ, args := c.prepareCallIndirect(typeIndex, tableIndex)
 
 	call := builder.AllocateInstruction()
